@@ -129,20 +129,33 @@ class St:
         return ' '.join('%s:%s' % (l, w) for l, w in self.path)
 
 
+def freeze(st, k):
+    """Variable k holds a value computed from something that is about to change: from now on the value is named by
+    the variable itself.  Facts and other values that mention the old symbolic value are rewritten, not lost."""
+    v = st.env.pop(k, None)
+    if v is None or k.startswith('*') or len(v) < 4 or CONST_RE.match(v):
+        return
+    if any(v in a for a, _ in st.facts):
+        st.facts = {(a.replace(v, k), t) for a, t in st.facts}
+    for k2, v2 in list(st.env.items()):
+        if v in v2:
+            st.env[k2] = v2.replace(v, k)
+
+
 def kill(st, name):
     """A variable (or lvalue string) is overwritten: drop its value and everything that mentions it."""
     st.env.pop(name, None)
     st.env.pop('*' + name, None)
     if ID_RE.fullmatch(name):
+        for k, v in list(st.env.items()):
+            if k in st.env and (name in ids(v) or (k != name and name in ids(k) and k.startswith('*'))):
+                freeze(st, k)
         st.facts = {f for f in st.facts if name not in ids(f[0])}
-        for k, v in list(st.env.items()):
-            if name in ids(v) or (k != name and name in ids(k) and k.startswith('*')):
-                del st.env[k]
     else:
-        st.facts = {f for f in st.facts if name not in f[0]}
         for k, v in list(st.env.items()):
-            if name in v:
-                del st.env[k]
+            if k in st.env and name in v:
+                freeze(st, k)
+        st.facts = {f for f in st.facts if name not in f[0]}
 
 
 class Interp:
@@ -257,6 +270,9 @@ class Interp:
                 # pointee may be written: forget *p and facts about it
                 nm = a['name']
                 st.env.pop('*' + nm, None)
+                for k2, v2 in list(st.env.items()):
+                    if k2 in st.env and ('*' + nm) in v2:
+                        freeze(st, k2)
                 st.facts = {f for f in st.facts if ('*' + nm) not in f[0]}
                 if self.is_array(nm):
                     kill(st, nm)
@@ -632,6 +648,9 @@ class Interp:
                 if s.get('c') is not None and not (k == 'Do' and it == 0):
                     for st in cur:
                         for ns, t in self.evalc(s['c'], st):
+                            if t:
+                                ns = ns.copy() if ns is st else ns
+                                ns.step(s['l'], 'L')
                             (T if t else F).append(ns)
                 else:
                     T = cur
